@@ -42,7 +42,7 @@ type Case struct {
 	MutMask int `json:"mut_mask"`
 }
 
-var signers = []string{"issuer", "issuer", "delegated", "delegated-big", "mimic", "delegated-noeku", "delegated-clientauth", "client", "client-bare", "client-bare", "stranger-embedded", "stranger", "sibling"}
+var signers = []string{"issuer", "issuer", "delegated", "delegated-big", "mimic", "delegated-noeku", "delegated-clientauth", "delegated-anyeku", "client", "client-bare", "client-bare", "stranger-embedded", "stranger", "sibling"}
 var kinds = []string{"good", "good", "revoked", "revoked", "unknown", "trylater", "unauthorized", "internal", "malformed", "sigrequired", "garbage", "html", "empty"}
 
 func genCase(t *rapid.T) Case {
@@ -225,7 +225,7 @@ var spec = ev.Spec[Case]{
 	ID:          "C05",
 	Gen:         genCase,
 	Run:         runCase,
-	Rule:        "rapid draws one OCSP response for the presented certificate: signer in {issuer, issuer-delegated responder with OCSPSigning EKU, issuer-signed certificate without any EKU, issuer-signed certificate with clientAuth EKU, the client certificate itself (with / without an EKU extension; embedded in the response or not), self-signed stranger with or without embedded certificate, same-name sibling CA}, serial in {this, other}, status in {good, revoked, unknown}, response status in {successful, tryLater, unauthorized, internalError, malformedRequest, sigRequired}, garbage / HTML / empty bodies, nextUpdate in {absent, future, past}, the client certificate's authorityKeyIdentifier in {keyId, absent, issuer+serial, both, issuer named by a URI / dNSName / empty GeneralNames + serial}, optionally the client certificate carrying the same serial number as its issuer's certificate, optionally the sibling CA and the stranger configured as trusted responder certificates, and in a quarter of the cases a single-bit or byte mutation at a drawn position of an otherwise authentic response. Whether the served bytes are authentic is decided by the reference (library parse bound to the leaf and the issuer + OCSPSigning check on an embedded responder). Oracle: an authentic answer decides by its status; a non-authentic one is no answer: strict => the handshake errors, lenient => accepted even if it says revoked, and nothing is cached (the responder then answers authentically 'revoked' and the next handshake must be rejected, with a 30 s cache configured). Non-trivial: the bytes are a non-empty response; distinct by (answer shape, strict, key, depth, mutation bucket).",
+	Rule:        "rapid draws one OCSP response for the presented certificate: signer in {issuer, issuer-delegated responder with OCSPSigning EKU, issuer-signed certificate without any EKU, issuer-signed certificate with clientAuth EKU, issuer-signed certificate with clientAuth + anyExtendedKeyUsage, the client certificate itself (with / without an EKU extension; embedded in the response or not), self-signed stranger with or without embedded certificate, same-name sibling CA}, serial in {this, other}, status in {good, revoked, unknown}, response status in {successful, tryLater, unauthorized, internalError, malformedRequest, sigRequired}, garbage / HTML / empty bodies, nextUpdate in {absent, future, past}, the client certificate's authorityKeyIdentifier in {keyId, absent, issuer+serial, both, issuer named by a URI / dNSName / empty GeneralNames + serial}, optionally the client certificate carrying the same serial number as its issuer's certificate, optionally the sibling CA and the stranger configured as trusted responder certificates, and in a quarter of the cases a single-bit or byte mutation at a drawn position of an otherwise authentic response. Whether the served bytes are authentic is decided by the reference (library parse bound to the leaf and the issuer + OCSPSigning check on an embedded responder). Oracle: an authentic answer decides by its status; a non-authentic one is no answer: strict => the handshake errors, lenient => accepted even if it says revoked, and nothing is cached (the responder then answers authentically 'revoked' and the next handshake must be rejected, with a 30 s cache configured). Non-trivial: the bytes are a non-empty response; distinct by (answer shape, strict, key, depth, mutation bucket).",
 	Assumptions: []string{"golang.org/x/crypto/ocsp's authenticated parse (ParseResponseForCert with an issuer) is the trusted reference for signature and serial matching"},
 }
 
